@@ -9,7 +9,7 @@
    comparison to the caller.  The theorems below say what that returned tag is. *)
 From Coq Require Import List NArith Arith Bool Lia.
 From GmsmVerif Require Import Lib.Outcome SM4.SM4Spec SM4.ModesSpec SM4.ModesProofs SM4.GCMSpec SM4.GCMField SM4.GCMModel
-  SM4.GCMProofs SM4.GCMProofs2 SM4.GCMProofs3 SM4.ModesModel SM4.GCMMem SM4.GCMMemProofs.
+  SM4.GCMProofs SM4.GCMProofs2 SM4.GCMProofs3 SM4.ModesModel SM4.GCMMem SM4.GCMMemProofs Gen.SM4Consts SM4.SM4Consts.
 Import ListNotations.
 Local Open Scope nat_scope.
 
@@ -225,6 +225,65 @@ Proof.
   intros h' r [H|[H|H]] a Ha; [apply (S2 h' r H)|apply (E2 h' r H)|apply (D2 h' r H)]; exact Ha.
 Qed.
 Print Assumptions C12_caller_memory_untouched.
+
+(* ---- 10. the same statements for SM4 itself: no premise left ------------------------------------------------------ *)
+(* E = sm4_encrypt_block, which C05_go_cipher_is_sm4 proves to be what sm4.NewCipher(key).Encrypt computes *)
+Theorem C12_gcm_is_standard_sm4 : forall K IV X A, length K = 16 ->
+  bytes_ok IV = true -> bytes_ok X = true -> bytes_ok A = true ->
+  let E := sm4_encrypt_block in
+  Sm4GCM E K IV X A true = Ok (gcm_ae (E K) IV X A) /\
+  Sm4GCM E K IV X A false = Ok (gctr (E K) (inc32 (J0 (E K) IV)) X, gcm_tag (E K) IV A X) /\
+  (forall C T, Sm4GCM E K IV X A true = Ok (C, T) -> Sm4GCM E K IV C A false = Ok (X, T)).
+Proof.
+  intros K IV X A HK HIV HX HA. pose proof C12_sm4_is_gcm_cipher as G. cbv zeta. split; [|split].
+  - exact (proj1 (C12_gcm_encrypt_is_standard _ K IV X A G HK HIV HX HA)).
+  - exact (proj1 (C12_gcm_decrypt_is_standard _ K IV X A [] G HK HIV HX HA)).
+  - intros C T. exact (C12_gcm_decrypt_encrypt _ K IV X A C T G HK HIV HX HA).
+Qed.
+Print Assumptions C12_gcm_is_standard_sm4.
+
+Theorem C12_stateless_sm4 : forall (calls : list gcm_call),
+  Forall (fun c => length (c_key c) = 16 /\ bytes_ok (c_iv c) = true /\ bytes_ok (c_in c) = true /\ bytes_ok (c_a c) = true) calls ->
+  gcm_run sm4_encrypt_block tt calls = Ok (map (gcm_spec_result sm4_encrypt_block) calls).
+Proof. intros calls HF. exact (C12_stateless _ calls C12_sm4_is_gcm_cipher HF). Qed.
+Print Assumptions C12_stateless_sm4.
+
+(* ---- 11. the constants the model hard-codes are the constants of the source (Gen/SM4Consts.v) ----------------------- *)
+(* the reduction byte 0xe1 and the 128 iterations of multiplication, the bit numbering of findYi, the shift of
+   Rightshift, the length-block shifts 56..0 and the factor 8 (bits), 96 and 00 00 00 01 of GetY0, the 4-byte bound
+   of the counter increment, t = 128, BlockSize; the complete literal sequences of all functions of sm4_gcm.go; and
+   sm4_gcm.go declares no package-level variable (what gcm_state := unit assumes) *)
+Theorem C12_source_constants :
+  (forall X Y, R_bytes = lit gen_lits_multiplication 2 :: zeros (nlit gen_lits_multiplication 0 - 1) /\
+     multiplication X Y = mult_loop (S (nlit gen_lits_multiplication 6)) (nlit gen_lits_multiplication 5) Y
+                                    (zeros (nlit gen_lits_multiplication 3)) (copy16 X)) /\
+  gen_lits_multiplication = [16; 0; 0xe1; 16; 16; 0; 127; 1; 16; 1; 1; 0]%N /\
+  (forall x, calculateLenToBytes x = map (fun s => N.shiftr x s mod 256)%N ghash_len_shifts) /\
+  ghash_len_shifts = [56; 48; 40; 32; 24; 16; 8; 0]%N /\
+  (forall H IV, GetY0 H IV = if Nat.eqb (length IV * nlit gen_lits_GetY0 0) (nlit gen_lits_GetY0 1)
+                             then IV ++ [lit gen_lits_GetY0 2; lit gen_lits_GetY0 3; lit gen_lits_GetY0 4; lit gen_lits_GetY0 5]
+                             else GHASH H [] IV) /\
+  gen_lits_GetY0 = [8; 96; 0; 0; 0; 1; 0; 16]%N /\
+  (forall yi, addYone yi = firstn (length yi - nlit gen_lits_incr 2) yi ++
+                           rev (carry_inc (rev (skipn (length yi - nlit gen_lits_incr 2) yi)))) /\
+  nlit gen_lits_incr 2 = 4 /\
+  nlit gen_lits_GCMEncrypt 42 = 128 /\ nlit gen_lits_GCMDecrypt 15 = 128 /\
+  gen_pkg_vars_sm4_gcm = [].
+Proof.
+  split; [intros X Y; destruct (multiplication_at_source X Y) as (H1 & H2 & _); split; assumption|].
+  split; [reflexivity|]. split; [intros x; apply (calculateLenToBytes_at_source x)|]. split; [reflexivity|].
+  split; [exact GetY0_at_source|]. split; [reflexivity|]. split; [exact addYone_at_source|].
+  repeat split; reflexivity.
+Qed.
+Print Assumptions C12_source_constants.
+
+Theorem C12_source_literals_frozen :
+  gen_lits_Rightshift = [1; 0; 1; 0; 1; 1; 7]%N /\ gen_lits_findYi = [8; 7; 8; 1; 1; 1; 0]%N /\
+  gen_lits_incr = [16; 1; 4; 1; 0; 1; 1; 16; 1; 16; 16; 16; 16; 16]%N /\ gen_lits_MSB = [8%N] /\
+  gen_lits_addition = [0%N] /\ gen_lits_GetH = [16; 16]%N /\ gen_lits_Sm4GCM = [16%N] /\
+  length gen_lits_GHASH = 128 /\ length gen_lits_GCMEncrypt = 43 /\ length gen_lits_GCMDecrypt = 43.
+Proof. repeat split; reflexivity. Qed.
+Print Assumptions C12_source_literals_frozen.
 
 (* ---- non-vacuity: SM4 instances, evaluated ------------------------------------------------------------------------------ *)
 Example C12_example_rfc8998 :
